@@ -124,3 +124,19 @@ Theorem C04_restart_handlers_are_the_sources : forall k c,
   HandlerEq.runs_like (GenHandlers.gen_restartManagerPeerReceivePull c) (Node.restart_received c).
 Proof. exact HandlerEq.restart_handlers_are_source. Qed.
 Print Assumptions C04_restart_handlers_are_the_sources.
+
+(* how an incoming request is handled -- validation before anything is created (acceptRequest), the checks
+   and revalidation of a restart request (restartRequest), the dispatch by kind (OnRequestReceived), the
+   validator lookup of a restart (validateRestart) and the events that record a validation outcome -- as
+   written in Node.v, runs for every interpreter state like the programs regenerated from
+   impl/receiving_requests.go and impl/events.go on every run: same result, same "an error occurred", same
+   state and outputs *)
+Theorem C04_request_handlers_are_the_sources : forall k m c vr s,
+  HandlerEq.same_val (Node.run (Node.bind (Node.exec Node.ISelf) (fun self => GenHandlers.gen_acceptRequest self k m)) s) (Node.run (Node.accept_request k m) s) /\
+  HandlerEq.same_val3 (Node.run (Node.bind (Node.exec Node.ISelf) (fun self => GenHandlers.gen_restartRequest self k m)) s) (Node.run (Node.restart_request k m) s) /\
+  HandlerEq.same_run2 (Node.run (GenHandlers.gen_OnRequestReceived (Node.n_self (Node.s_node s)) k m) s) (Node.run (Node.on_request_received k m) s) /\
+  HandlerEq.same_val (Node.run (GenHandlers.gen_validateRestart c) s) (Node.run (Node.validate_restart c) s) /\
+  HandlerEq.same_run (Node.run (GenHandlers.gen_recordRejectedValidationEvents k vr) s) (Node.run (Node.record_rejected k vr) s) /\
+  HandlerEq.same_run (Node.run (GenHandlers.gen_recordAcceptedValidationEvents c vr) s) (Node.run (Node.record_accepted c vr) s).
+Proof. exact HandlerEq.request_handlers_are_source. Qed.
+Print Assumptions C04_request_handlers_are_the_sources.
